@@ -10,7 +10,7 @@ mod data;
 mod mirror;
 mod oracle;
 
-use mc_core::{self as mc, json, Harness, Job, Plan, Tier, Value};
+use mc_core::{self as mc, json, Harness, Job, Plan, Tier};
 use mc_sc::{own_rng, release_rng, take_draws, RngMode};
 use mirror::MTree;
 use oracle::{classify, judge, Cfg, Crit, Data, Model};
@@ -173,13 +173,13 @@ fn exec_case(d: &Data, cfg: &Cfg, full: bool) {
         if j.max_path >= 4 {
             mc::count("trees_4plus_levels");
         }
-        let _ = j.n_leaves;
     }
     mc::outcome(tree.digest());
     mc::describe(|| {
         json!({
             "model": cfg.text(), "input_class": ic.name, "family": d.family, "x": d.x, "y": d.y,
             "tree": tree.to_json(),
+            "leaves": judged.as_ref().map(|j| j.n_leaves), "longest_path_splits": judged.as_ref().map(|j| j.max_path),
             "predict_on_training_rows": model.predict(&x).ok(),
             "checked": ["routing", "leaf value", "leaf size", "path length", "greedy optimality", "completeness", "reproduce", "fit twice", "features x 2^-3, 2^5"],
         })
@@ -580,29 +580,10 @@ impl Harness for C05 {
     }
 }
 
-/// Memory cap: a defect that makes tree growth run away allocates gigabytes per second, faster
-/// than the driver's per-case deadline can fire. This thread aborts the process above 2 GiB
-/// resident, which the driver sees as a crashed worker, re-runs in a fresh process and reports as a
-/// violation of termination (`termination.crash:<job>`). It never influences a verdict otherwise.
-fn start_memory_watchdog() {
-    std::thread::spawn(|| loop {
-        std::thread::sleep(std::time::Duration::from_millis(20));
-        let rss_pages = std::fs::read_to_string("/proc/self/statm").ok().and_then(|s| s.split_whitespace().nth(1).and_then(|v| v.parse::<u64>().ok())).unwrap_or(0);
-        if rss_pages * 4096 > (2u64 << 30) {
-            eprintln!("C05: resident set above 2 GiB inside one case (runaway tree growth?) - aborting this process");
-            std::process::abort();
-        }
-    });
-}
-
 fn main() {
-    start_memory_watchdog();
     if let Err(e) = mc_sc::check_rng_sites() {
         eprintln!("MACHINERY-ERROR: {}", e);
         std::process::exit(2);
     }
     mc::main(C05)
 }
-
-#[allow(dead_code)]
-fn _v(_: Value) {}
